@@ -67,7 +67,7 @@ func (v *Verifier) sweepFuncs(sc SweepScope) []*ssa.Function {
 		if !contains(sc.Pkgs, rel) {
 			continue
 		}
-		if _, has := v.contracts.Funcs[k]; has {
+		if fc, has := v.contracts.Funcs[k]; has && !fc.NoSafety {
 			continue
 		}
 		if inc != nil && !inc.MatchString(key) {
